@@ -388,7 +388,8 @@ func (w *World) exec(op Op, res *Result) {
 			case "error":
 				return nil, nil, false, errCallback
 			case "retry":
-				if calls == 1 {
+				// (op.Amt: how many times the callback asks for another round, default once)
+				if n := int(op.Amt); calls == 1 || calls <= n {
 					return nil, nil, false, sgbucket.ErrCasFailureShouldRetry
 				}
 				return op.Body, ep, false, nil
@@ -444,7 +445,7 @@ func (w *World) exec(op Op, res *Result) {
 				if op.Cb == "error" {
 					return sgbucket.UpdatedDoc{}, errCallback
 				}
-				if op.Cb == "retry" && calls == 1 {
+				if n := int(op.Amt); op.Cb == "retry" && (calls == 1 || calls <= n) {
 					return sgbucket.UpdatedDoc{}, sgbucket.ErrCasFailureShouldRetry
 				}
 				ud := sgbucket.UpdatedDoc{Doc: op.Body, Xattrs: xattrArg(op), XattrsToDelete: xdelArg(op), IsTombstone: op.Tomb}
